@@ -171,6 +171,11 @@ func (x *Ex) genFuncsMore(body *LeanFile) {
 		{"internal/domutil", "", "GetNodeDepth"},
 		{"internal/domutil", "", "GetParentNodes"},
 	})
+	// what the visibility test reads from an inline style (Model/Style.lean)
+	x.bodyGroup(body, "styleBodies", []string{"C04"}, [][3]string{
+		{"internal/domutil", "", "GetDisplayStyle"},
+		{"internal/domutil", "", "IsProbablyVisible"},
+	})
 	// reference resolution (Model/AbsURL.lean)
 	x.bodyGroup(body, "urlBodies", []string{"C06", "C16"}, [][3]string{
 		{"internal/stringutil", "", "CreateAbsoluteURL"},
